@@ -29,30 +29,27 @@
 #include <unicode/uidna.h>
 
 // ---------------------------------------------------------------- ICU interposition (T2)
-static uint32_t g_icu_options = 0xFFFFFFFFu;
-static unsigned long g_icu_open_calls = 0, g_icu_toascii_calls = 0;
+// (atomics and magic statics only: the driver itself must be race-free for the C19 runs)
+#include <atomic>
+static std::atomic<uint32_t> g_icu_options(0xFFFFFFFFu);
+static std::atomic<unsigned long> g_icu_open_calls(0), g_icu_toascii_calls(0);
+static void* icu_sym(const char* base) {
+    char name[64];
+    std::snprintf(name, sizeof name, "%s_%d", base, U_ICU_VERSION_MAJOR_NUM);
+    return dlsym(RTLD_NEXT, name);
+}
 extern "C" {
 U_CAPI UIDNA* U_EXPORT2 uidna_openUTS46(uint32_t options, UErrorCode* pErrorCode) {
     typedef UIDNA* (*fn_t)(uint32_t, UErrorCode*);
-    static fn_t realfn = nullptr;
-    if (!realfn) {
-        char name[64];
-        std::snprintf(name, sizeof name, "uidna_openUTS46_%d", U_ICU_VERSION_MAJOR_NUM);
-        realfn = reinterpret_cast<fn_t>(dlsym(RTLD_NEXT, name));
-    }
-    g_icu_options = options;
+    static const fn_t realfn = reinterpret_cast<fn_t>(icu_sym("uidna_openUTS46"));
+    g_icu_options.store(options);
     ++g_icu_open_calls;
     return realfn(options, pErrorCode);
 }
 U_CAPI int32_t U_EXPORT2 uidna_nameToASCII(const UIDNA* idna, const UChar* name, int32_t length,
     UChar* dest, int32_t capacity, UIDNAInfo* pInfo, UErrorCode* pErrorCode) {
     typedef int32_t (*fn_t)(const UIDNA*, const UChar*, int32_t, UChar*, int32_t, UIDNAInfo*, UErrorCode*);
-    static fn_t realfn = nullptr;
-    if (!realfn) {
-        char nm[64];
-        std::snprintf(nm, sizeof nm, "uidna_nameToASCII_%d", U_ICU_VERSION_MAJOR_NUM);
-        realfn = reinterpret_cast<fn_t>(dlsym(RTLD_NEXT, nm));
-    }
+    static const fn_t realfn = reinterpret_cast<fn_t>(icu_sym("uidna_nameToASCII"));
     ++g_icu_toascii_calls;
     return realfn(idna, name, length, dest, capacity, pInfo, pErrorCode);
 }
@@ -585,7 +582,7 @@ static std::string run_cmd(const std::vector<std::string>& a) {
     if (c == "urlenc_parse") { need(2); Tok t; if (!parse_tok(a[2], t)) return "ERR"; const bool rem = a[1] == "1";
         upa::url_search_params::name_value_list l; WITH_STR(t, S, l = upa::url_search_params::do_parse(rem, S));
         std::ostringstream o; o << "urlenc_parse "; bool f = true; for (auto& kv : l) { o << (f ? "" : ",") << hx(kv.first) << "=" << hx(kv.second); f = false; } if (f) o << "-"; return o.str(); }
-    if (c == "icuinfo") { std::ostringstream o; o << "icuinfo options=" << g_icu_options << " open_calls=" << g_icu_open_calls << " toascii_calls=" << g_icu_toascii_calls; return o.str(); }
+    if (c == "icuinfo") { std::ostringstream o; o << "icuinfo options=" << g_icu_options.load() << " open_calls=" << g_icu_open_calls.load() << " toascii_calls=" << g_icu_toascii_calls.load(); return o.str(); }
     if (c == "reset") { for (int i = 0; i < NSLOT; ++i) { g_url[i].reset(); g_sp[i] = nullptr; g_usp[i].reset(); } return "reset"; }
     // fault injection: "fail <n> <command...>" runs the command with the n-th allocation failing
     return "ERR unknown-command";
